@@ -56,6 +56,35 @@ func init() {
 		}
 		return showHdr(h)
 	}
+	// parsenoise <seed>: the process parses traffic of every switch-side kind (incl. TLV-table replies mapping every
+	// tun_metadata index with assorted option lengths, bundle replies, flow-stats with every field kind); the registry
+	// sweep that follows in the family must give what it gave before
+	runners["parsenoise"] = func(a []string) string {
+		g := &swGen{r: newRand(int64(atoi(a[0])))}
+		n := 0
+		for k := 0; k < swKinds; k++ {
+			for i := 0; i < 6; i++ {
+				fr, _ := g.message(k)
+				func() {
+					defer func() { recover() }()
+					of.Parse(fr)
+				}()
+				n++
+			}
+		}
+		for ix := 0; ix < 8; ix++ {
+			for _, ol := range []int{4, 8, 64, 124, 128} {
+				b := nb().u32(0x2320, 26).u32(256).u16(8).z(10).u16(0x0102).u8(ix, ol).u16(ix).z(2).b
+				fr := nb().u8(4, 4).u16(8 + len(b)).u32(uint32(ix)).raw(b).b
+				func() {
+					defer func() { recover() }()
+					of.Parse(fr)
+				}()
+				n++
+			}
+		}
+		return fmt.Sprintf("ok %d", n)
+	}
 	runners["findmut"] = func(a []string) string {
 		m := a[1] == "1"
 		h1, err := of.FindFieldHeaderByName(a[0], m)
@@ -145,6 +174,17 @@ func init() {
 				if !seen[n] {
 					seen[n] = true
 					names = append(names, n)
+				}
+			}
+		}
+		// the registry before, and again after the process has parsed a peer's traffic (no decoder leaves state in it)
+		for pass := 0; pass < 2; pass++ {
+			if pass == 1 {
+				c.run("parsenoise", c.rng.Intn(100000))
+			}
+			for _, n := range names {
+				for _, m := range []int{0, 1} {
+					c.run("find", n, m)
 				}
 			}
 		}
